@@ -56,6 +56,13 @@ pub fn exact_fields(d: &[u8], m: &Movie, cfg: &Cfg, e: &Expect) -> Issues {
             }
             if s[i].size as usize != exp[i].bytes.len() {
                 out.push((format!("{what}/sample-size"), format!("sample {i}: stsz {} vs {} bytes stored", s[i].size, exp[i].bytes.len())));
+            } else {
+                // the chunk offset is a numeric field like the others: it must be the position at
+                // which this sample's bytes really are
+                let (a, b) = (s[i].offset as usize, s[i].offset as usize + s[i].size as usize);
+                if b > d.len() || d[a..b] != exp[i].bytes[..] {
+                    out.push((format!("{what}/chunk-offset"), format!("sample {i}: the table says offset {a}, the sample's bytes are not there")));
+                }
             }
         }
         if t.mdhd.duration as u128 != sum {
@@ -379,6 +386,24 @@ fn judge(c: &Case, order: (u64, u64), t: &mut Tally) {
             let m = parse_movie(&ex.bytes, "prog");
             for (sig, d) in exact_fields(&ex.bytes, &m, cfg, &e) {
                 t.violation(&format!("C16/prog/{sig}"), order, || format!("{name} | {} | results {:?} | {d}", brief_ops(ops), ex.results.iter().map(|r| r.brief()).collect::<Vec<_>>()), case);
+            }
+            // the same history with a title and a creation time (and, every other case, the other
+            // layout): the user-data box moves the media data, every numeric field must follow
+            if cfg.meta.is_none() {
+                let mut c2 = cfg.clone();
+                c2.meta = Some(oracle::model::Meta { title: Some("sixteen".into()), time: Some(1_000_000_000), lang: None });
+                if order.1 % 2 == 1 {
+                    c2.fast_start = !c2.fast_start;
+                }
+                let ex2 = run(&c2, &all);
+                t.evaluations += 1;
+                if ex2.panicked().is_none() && ex2.results.last().map(|r| r.is_ok()).unwrap_or(false) {
+                    let e2 = expect_from(&c2, ops, &ex2.results);
+                    let m2 = parse_movie(&ex2.bytes, "prog");
+                    for (sig, d) in exact_fields(&ex2.bytes, &m2, &c2, &e2) {
+                        t.violation(&format!("C16/prog/{sig}"), (order.0, order.1 + 500_000), || format!("{name} (with metadata, fast start {}) | {} | {d}", c2.fast_start, brief_ops(ops)), || json!({"engine": "E2-c16-prog", "name": name, "cfg": c2, "ops": ops}));
+                    }
+                }
             }
             t.sample(2, || json!({"case": name, "history": brief_ops(ops), "results": ex.results.iter().map(|r| r.brief()).collect::<Vec<_>>()}));
         }
